@@ -20,7 +20,7 @@ class C20(Prop):
     LONG_BIAS = 0.1
     WEIGHTS = {"page": 3, "pages": 2, "links": 7, "batch": 5, "again": 2, "create": 3, "delete": 1, "addprefix": 2,
                "rmprefix": 1, "move": 1, "rule": 1, "unrule": 0, "reopen": 1}
-    QUICK = (14, 20)
+    QUICK = (40, 20)
     THOROUGH = (200, 40)
     ASSUMPTIONS = ["relational oracle: pages_iter, retrieve_prefix/webentity and get_page_links of the same index define "
                    "eligibility and indegree", "depth is counted in stems below the queried prefix (prefix itself = 0)",
